@@ -224,6 +224,7 @@ struct GenCfg {
   bool repeats = false;         // C15 repeat calls
   bool small_pools = false;     // C15 colliding parameter pools
   bool q120 = false;
+  bool kernel_pairs = false;    // C07 ride-along: exported ref/avx2 kernel twins on identical operands
   int ntasks = 0;               // 0 = single sequence
   int min_calls = 4, max_calls = 20;  // per task (or total when ntasks==0)
   int max_log2n = 6;            // mostly N <= 2^max_log2n
